@@ -12,6 +12,8 @@ import random
 import struct
 import sys
 
+CARRIED_SWITCHES = (0, 1, 200)
+
 sys.path.insert(0, os.path.dirname(os.path.abspath(__file__)))
 import refchk  # noqa: E402
 from common import BUILD_DIR, REPO, load_spec  # noqa: E402
@@ -69,7 +71,7 @@ def build(scen, pad):
             # every authored object is referenced at least once
             acts += [SetSwitchAction(_switch=s, _switch_action=SwitchAction.SET) for s in sws]
             # existing switches by number, switch 0 included (numbers are 0-based)
-            acts += [SetSwitchAction(_switch=RichSwitch(_index=k), _switch_action=SwitchAction.CLEAR) for k in (0, 1, 200)]
+            acts += [SetSwitchAction(_switch=RichSwitch(_index=k), _switch_action=SwitchAction.CLEAR) for k in CARRIED_SWITCHES]
             acts += [MinimapPingAction(_location=l) for l in locs]
             acts += [CreateUnitWithPropertiesAction(_group=players[1], _amount=1, _unit=units[9], _location=locs[0], _properties=c) for c in cus]
         triggers.append(RichTrigger(_conditions=conds, _actions=acts, _players={players[0], players[t % 8]}))
@@ -122,6 +124,8 @@ def canonical(base, out):
             for f, k in ref_fields["condition"].get(c["_condition_id"], {}).items():
                 if k == "switch":
                     old_sw.add(c[f])
+    # switches the scenario refers to BY NUMBER carry their index: their number is content, not a new-slot label
+    old_sw |= set(CARRIED_SWITCHES)
 
     def rank(records_by_slot, old):
         new = sorted(((json.dumps(r, sort_keys=True), s) for s, r in records_by_slot.items() if s not in old and r is not None))
@@ -181,7 +185,16 @@ def canonical(base, out):
                 h.update(json.dumps([t["execFlags"], t["players"], t["cur"]]).encode())
         else:
             h.update(p)
-    return h.hexdigest()
+    # ground truth for what the scenario refers to BY NUMBER: the CLEAR actions of the first authored trigger
+    # must carry exactly the numbers they were authored with
+    nbase = len(tb[b"TRIG"]["triggers"])
+    carried = []
+    for t in to[b"TRIG"]["triggers"][nbase:nbase + 1]:
+        for a in t["acts"]:
+            if a["_action_id"] == 13 and a["_quantifier_or_switch_or_order"] == 5:
+                carried.append(a["_second_group"])
+    h.update(json.dumps(carried).encode())
+    return h.hexdigest() + ("" if carried == list(CARRIED_SWITCHES) else " BAD-CARRIED %s" % carried)
 
 
 if __name__ == "__main__":
